@@ -69,6 +69,9 @@ type Case struct {
 	// Cancelled: the request's context is already cancelled when it is served (a client that went
 	// away): the API still has to answer exactly once
 	Cancelled bool `json:"cancelled"`
+	// NaN: the handler's response carries NaN in every float it has (a value encoding/json refuses):
+	// the API still has to answer exactly once, without panicking
+	NaN bool `json:"nan"`
 	// Resp: index (mod count) of the response constructor the handler uses
 	Resp int `json:"resp"`
 	// extra, op-specific payload
@@ -343,7 +346,7 @@ func buildAPI(p *Pkg, c *Case) *apiState {
 			fv.Set(fn)
 		case f.Type.Kind() == reflect.Func && strings.HasSuffix(f.Name, "Handler"):
 			ft := f.Type
-			noParse, resp := c.NoParse, c.Resp
+			noParse, resp, nan := c.NoParse, c.Resp, c.NaN
 			fv.Set(reflect.MakeFunc(ft, func(args []reflect.Value) []reflect.Value {
 				req := args[1]
 				var hr *http.Request
@@ -363,7 +366,7 @@ func buildAPI(p *Pkg, c *Case) *apiState {
 				if !noParse {
 					tr.add("P:%s", callParse(req))
 				}
-				return []reflect.Value{makeResponse(p, ft.Out(0), resp)}
+				return []reflect.Value{makeResponse(p, ft.Out(0), resp, nan)}
 			}))
 		}
 	}
@@ -580,7 +583,38 @@ var (
 
 // makeResponse builds a value of the operation's response interface through one of the
 // package's exported constructors (chosen by index among those whose result implements it).
-func makeResponse(p *Pkg, iface reflect.Type, idx int) reflect.Value {
+// poisonFloats sets every float reachable through structs, Maybe / Nullable wrappers and (one-element)
+// slices to NaN.
+func poisonFloats(v reflect.Value, depth int) {
+	if depth > 8 || !v.CanSet() {
+		return
+	}
+	switch v.Kind() {
+	case reflect.Float32, reflect.Float64:
+		v.SetFloat(math.NaN())
+	case reflect.Struct:
+		if v.Type() == timeType || v.Type().ConvertibleTo(timeType) {
+			return
+		}
+		if isWrapper(v.Type(), "Maybe") || isWrapper(v.Type(), "Nullable") {
+			if f := v.FieldByName("IsSet"); f.IsValid() && f.CanSet() {
+				f.SetBool(true)
+			}
+		}
+		for i := 0; i < v.NumField(); i++ {
+			poisonFloats(v.Field(i), depth+1)
+		}
+	case reflect.Slice:
+		if v.Type().Elem().Kind() == reflect.Uint8 {
+			return
+		}
+		s := reflect.MakeSlice(v.Type(), 1, 1)
+		poisonFloats(s.Index(0), depth+1)
+		v.Set(s)
+	}
+}
+
+func makeResponse(p *Pkg, iface reflect.Type, idx int, nan bool) reflect.Value {
 	names := respCtors(p, iface)
 	if len(names) == 0 {
 		panic("no response constructor for " + iface.Name())
@@ -599,6 +633,11 @@ func makeResponse(p *Pkg, iface reflect.Type, idx int) reflect.Value {
 			args[i] = reflect.ValueOf(&rc).Elem()
 		default:
 			args[i] = reflect.Zero(at)
+			if nan {
+				av := reflect.New(at).Elem()
+				poisonFloats(av, 0)
+				args[i] = av
+			}
 		}
 	}
 	res := fn.Call(args)[0]
